@@ -215,6 +215,7 @@ func cmdCheck(args []string) int {
 	obls = append(obls, eng.initValuesObligations(*prop)...)
 	obls = append(obls, eng.fieldTagObligations(*prop)...)
 	obls = append(obls, eng.neverAssignedObligations(*prop)...)
+	obls = append(obls, eng.frozenAfterObligations(*prop)...)
 	tGen := time.Since(t0).Seconds() - tLoad
 	tmp, _ := os.MkdirTemp("", "verif-smt-")
 	if !*keep {
@@ -1380,6 +1381,100 @@ func parentKeyOf(root ast.Node, lit *ast.BasicLit) (isKey bool, found bool) {
 		return true
 	})
 	return
+}
+
+// frozenAfterObligations: "frozenafter F : CALLEE" rules, decided on the SSA form of F.
+func (eng *Engine) frozenAfterObligations(tag string) []*Obligation {
+	var out []*Obligation
+	var paths []string
+	for p := range eng.ld.pkgSpecs {
+		paths = append(paths, p)
+	}
+	sort.Strings(paths)
+	for _, p := range paths {
+		for _, rule := range eng.ld.pkgSpecs[p].FrozenAfter {
+			has := false
+			for _, t := range rule.Tags {
+				if t == tag {
+					has = true
+				}
+			}
+			if !has {
+				continue
+			}
+			o := &Obligation{Name: "order#" + rule.Label, Func: rule.Allowed[0], Kind: "structural", Label: rule.Label, Tags: rule.Tags,
+				Pos: fmt.Sprintf("%s:%d", rule.File, rule.Line), Structural: true, Guard: "true",
+				Goal: fmt.Sprintf("in %s nothing after a call of %s writes into a map or through a field, element or pointer", rule.Allowed[0], rule.Callee)}
+			fn := eng.ld.lookupFunc(p, rule.Allowed[0])
+			if fn == nil {
+				o.StructMsg = "function not found (rule out of date): " + rule.Allowed[0]
+				out = append(out, o)
+				continue
+			}
+			var bad []string
+			calls := 0
+			seen := map[*ssa.BasicBlock]bool{}
+			check := func(in ssa.Instruction) {
+				at := eng.prog.Fset.Position(in.Pos()).String()
+				switch x := in.(type) {
+				case *ssa.MapUpdate:
+					bad = append(bad, "map entry written at "+at)
+				case *ssa.Store:
+					if _, direct := x.Addr.(*ssa.Alloc); !direct {
+						if _, global := x.Addr.(*ssa.Global); !global {
+							bad = append(bad, "store through a field, element or pointer at "+at)
+						}
+					}
+				}
+			}
+			var walk func(b *ssa.BasicBlock)
+			walk = func(b *ssa.BasicBlock) {
+				if seen[b] {
+					return
+				}
+				seen[b] = true
+				for _, in := range b.Instrs {
+					check(in)
+				}
+				for _, s := range b.Succs {
+					walk(s)
+				}
+			}
+			for _, b := range fn.Blocks {
+				for i, in := range b.Instrs {
+					c, ok := in.(*ssa.Call)
+					if !ok {
+						continue
+					}
+					key := ""
+					if c.Call.IsInvoke() {
+						key = "(" + typeKey(c.Call.Value.Type()) + ")." + c.Call.Method.Name()
+					} else if callee, ok := c.Call.Value.(*ssa.Function); ok {
+						_, key = calleeKeyOf(callee)
+					}
+					if key == "" || !matchCallee(key, rule.Callee) {
+						continue
+					}
+					calls++
+					for _, in2 := range b.Instrs[i+1:] {
+						check(in2)
+					}
+					for _, s := range b.Succs {
+						walk(s)
+					}
+				}
+			}
+			sort.Strings(bad)
+			o.StructOK = calls > 0 && len(bad) == 0
+			if calls == 0 {
+				o.StructMsg = "no call of " + rule.Callee + " in " + rule.Allowed[0] + ": rule out of date"
+			} else if len(bad) > 0 {
+				o.StructMsg = strings.Join(bad, "; ")
+			}
+			out = append(out, o)
+		}
+	}
+	return out
 }
 
 // neverAssignedObligations: "neverassigned T.f, T.g" rules: no store instruction of /repo (tests apart) addresses one
